@@ -63,8 +63,16 @@ def prepare_scratch(modules, need_ref=False):
     os.makedirs(SCRATCH_BASE, exist_ok=True)
     scratch = tempfile.mkdtemp(prefix="pfverif.", dir=SCRATCH_BASE)
     dst = os.path.join(scratch, "repo")
-    rc, out = sh(["rsync", "-a", "--exclude", "/target", "--exclude", "/.git",
-                  "--exclude", "/samples", REPO + "/", dst + "/"])
+    # developer aid: seeded-change trials hold this lock while a patch is applied to /repo
+    import fcntl
+    with open("/tmp/seed.lock", "a") as lk:
+        if not os.environ.get("VERIF_NO_LOCK"):
+            try:
+                fcntl.flock(lk, fcntl.LOCK_EX)
+            except OSError:
+                pass
+        rc, out = sh(["rsync", "-a", "--exclude", "/target", "--exclude", "/.git",
+                      "--exclude", "/samples", REPO + "/", dst + "/"])
     if rc != 0:
         raise RuntimeError("rsync failed: " + out)
     digest = tree_digest(dst)
